@@ -46,9 +46,12 @@ Sets(kind, slot) == {E \in SUBSET {e \in Entries(kind) : SlotOf(e) = slot} :
 MCInit == Init /\ nst = 0
 MCNext ==
   \/ /\ nst < MaxStores /\ nst' = nst + 1
-     /\ \/ \E kind \in MCKinds \cap Kinds, slot \in {1, 2} : \E E \in Sets(kind, slot) :
-             StoreBegin(nst + 1, [type |-> kind, slot |-> slot], E)
+     /\ \/ \E kind \in MCKinds \cap Kinds, slot \in {1, 2} :
+             IF EarlyAdd THEN StoreAddEarly(nst + 1, [type |-> kind, slot |-> slot])
+             ELSE \E E \in Sets(kind, slot) : StoreBegin(nst + 1, [type |-> kind, slot |-> slot], E)
         \/ "misc" \in MCKinds /\ \E ty \in {"exit", "randao"} : StoreBegin(nst + 1, [type |-> ty, slot |-> 1], {})
+  \/ /\ UNCHANGED nst
+     /\ \E p \in dl.pre : \E E \in Sets(p.duty.type, p.duty.slot) : StoreWriteLate(p.o, E)
   \/ (DrainOne \/ StoreEnd) /\ UNCHANGED nst
   \/ /\ Cardinality(DOMAIN q) < MaxQ /\ UNCHANGED nst
      /\ \E kind \in MCKinds \cap Kinds : \E key \in QKeys(kind) : AwaitCall(Cardinality(DOMAIN q) + 1, kind, key)
